@@ -42,7 +42,11 @@ ASSUMPTIONS = [
     'SILK reports an internal sampling rate not above the desired one (contract SilkBwContract of honour_bandwidth for '
     'SILK-only packets; the resulting TOC bandwidth is checked on every packet by suite ctl-honour)',
     'opus_alloc is plain malloc (allocation failure is injected with ld --wrap=malloc)',
-    'encode calls inside a history satisfy the monitored contract Opus.Ctl.encodeContract (checked after every call)',
+    'encode calls inside a history satisfy the monitored contract Opus.Ctl.encodeContract / msEncodeContract (checked after '
+    'every call)',
+    'the streams of a multistream / projection encoder are driven through the multistream object only: a caller who takes a '
+    'stream with OPUS_MULTISTREAM_GET_ENCODER_STATE and sends it requests directly (e.g. OPUS_RESET_STATE on one stream) owns '
+    'the consistency of the streams; such histories are outside MsInv and outside the check',
 ]
 REQUIRED_THEOREMS = ['OpusProps.C11.' + n for n in (
     'set_get', 'set_get_decoder', 'set_get_multistream', 'bandwidth_reported_after_frame',
@@ -55,9 +59,8 @@ REQUIRED_THEOREMS = ['OpusProps.C11.' + n for n in (
 UNPROVED = [
     'int ranges of the decision chain proper need no lemma (comparisons only); the SILK/CELT rate computations that '
     'follow the chain (compute_equiv_rate etc.) are DSP oracles, outside this model',
-    'MsInv.firstHead (no stream has coded a frame before stream 0) after opus_multistream_encode is a monitored contract, '
-    'not a theorem: the rate/byte allocation that decides which streams are starved is not modelled (and the contract is '
-    'violated by the code in CBR at low rates with frames >= 40 ms: defect D5)',
+    'the multistream rate / byte allocation (which streams are starved) is an oracle of ms_encode_keeps_inv; no theorem '
+    'depends on it any more since the OPUS_SET_APPLICATION fan-out rolls back (9ffbe457)',
     'projection DEcoder creation arguments: modelled through the multistream decoder only',
 ]
 LEVEL_TEXT = ('proof of the modelled chain: every ctl request of encoder/decoder/multistream/projection objects as a state '
@@ -98,6 +101,7 @@ def ties(ctx):
     out.append(common.run_tie('ctl-honour-dtx', [h, 'honourdtx'], env=_ENV))     # corpus of past failures first
     out.append(common.run_tie('ctl-forceauto', [h, 'forceauto'], env=_ENV))
     out.append(common.run_tie('ctl-fss-range', [h, 'fssbig'], env=_ENV))
+    out.append(common.run_tie('ctl-msapp', [h, 'msapp'], env=_ENV))
     out.append(common.run_tie('ctl-funcs', [h, 'funcs'], env=_ENV))
     out.append(common.run_tie('ctl-create', [h, 'create', '0' if q else '1'], env=_ENV))
     out.append(common.run_tie('ctl-grid', [h, 'grid', '0' if q else '1'], env=_ENV))
@@ -444,7 +448,7 @@ def search(ctx):
     wit = []
     samples = []
     seen = set()
-    runs = [[h, 'forceauto'], [h, 'grid', '0' if ctx.quick else '1'], [h, 'rand', str(ctx.seed + 1000), '2000' if ctx.quick else '20000'],
+    runs = [[h, 'forceauto'], [h, 'msapp'], [h, 'grid', '0' if ctx.quick else '1'], [h, 'rand', str(ctx.seed + 1000), '2000' if ctx.quick else '20000'],
             [h, 'reapp', str(ctx.seed + 1000), '1500' if ctx.quick else '20000'],
             [h, 'msstarve', str(ctx.seed + 1000), '1000' if ctx.quick else '15000'],
             [h, 'chain', str(ctx.seed + 1000), '1000' if ctx.quick else '10000'],
